@@ -16,7 +16,15 @@ SPEC = {"r1": True, "r2": True}
 
 
 def jobs(tier, seed):
-    return progx.ladder_jobs(LADDER[tier], MENU, CATS, SPEC)
+    for j in progx.ladder_jobs(LADDER[tier], MENU, CATS, SPEC):
+        yield j
+    # shape family: one task yielding one structure, every shape (depth 2, arity <= 3) over leaves that succeed or
+    # fail: decides "first failing future in structure order wins" with several failures per structure
+    m = 96 if tier == "quick" else 512
+    for i in range(m):
+        j = {"shape_slice": [i, m, tier], "menu": [], "k": 0, "convs": ["call"], "cats": CATS}
+        j.update(SPEC)
+        yield j
 
 
 worker_init = progx.worker_init
@@ -31,4 +39,5 @@ def replay(case, env):
 
 
 def finish(acc, tier):
-    return {"bounds": {"ladder (size<=n, deviations<=k, conventions)": LADDER[tier], "menu": MENU, "categories judged": CATS}}
+    return {"bounds": {"ladder (size<=n, deviations<=k, conventions)": LADDER[tier], "menu": MENU, "categories judged": CATS,
+                       "shape family": "every tuple/list/dict of arity 0..3 whose elements are leaves or containers of arity 0..2, leaves %r" % (gen.SHAPE_LEAVES[tier],)}}
